@@ -39,6 +39,10 @@ type TCase struct {
 	// MetaEarly: messages the owner sends to its meta-process right after SpawnMeta returned (before the
 	// meta-process's Start goroutine is necessarily running)
 	MetaEarly int `json:"meta_early,omitempty"`
+	// EarlyEnd (C05, meta): instead of the general workload: the owner spawns a meta-process and, in the
+	// same callback, ends it before its Start goroutine has necessarily run: 1 SendExitMeta, 2 the owner
+	// returns an error, 3 the owner panics, 4 the owner is killed at once
+	EarlyEnd int `json:"early_end,omitempty"`
 }
 
 type tMsg struct {
@@ -215,6 +219,20 @@ func (t *tRun) addCause(s string) {
 	t.mu.Unlock()
 }
 
+// c05Reason builds the reason carried by cause number id. For an actor target every second one
+// wraps another error: what the observers are told is the reason that was given, not the innermost
+// cause of it. (The runtime strips one level of wrapping from whatever the behaviour returns; the actor
+// adds exactly one level to the reason of an exit signal, supervisors and pools hand it on as it is -
+// there a wrapped reason reaches the observers without its outermost level, which is not judged.)
+func c05Reason(prefix string, id int, wrapOK bool) (error, string) {
+	if id%2 == 0 && wrapOK {
+		err := fmt.Errorf("%s%d-outer: %w", prefix, id, fmt.Errorf("inner%d", id))
+		return err, err.Error()
+	}
+	err := fmt.Errorf("%s%d", prefix, id)
+	return err, err.Error()
+}
+
 func reasonKey(err error) string {
 	switch {
 	case err == nil:
@@ -260,6 +278,7 @@ func (t *tRun) handle(self gen.Process, m any) error {
 			t.e.Probe("target-made-a-request")
 		}
 	case "err":
+		// (a handler error is handed to the observers without its outermost wrapping: flat reasons only)
 		return fmt.Errorf("boom%d", tm.ID)
 	case "normal":
 		return gen.TerminateReasonNormal
@@ -610,24 +629,24 @@ func (t *tRun) doOp(who string, id int, op TOp, p *Probe) {
 			t.addCause("kill")
 		}
 	case "exit":
-		reason := fmt.Errorf("xsig%d", id)
+		reason, key := c05Reason("xsig", id, t.c.Kind == "actor")
 		if t.c.Kind == "meta" {
 			err = p.SendExitMeta(t.metaID, reason)
 			if err == nil {
-				t.addCause(fmt.Sprintf("xsig%d", id))
+				t.addCause(key)
 			}
 		} else {
 			err = p.SendExit(t.target, reason)
 			if err == nil && !(t.c.Trap && t.c.Kind == "actor") {
-				t.addCause(fmt.Sprintf("xsig%d", id))
+				t.addCause(key)
 			}
 		}
 	case "parentexit":
-		reason := fmt.Errorf("xsig%d", id)
+		reason, key := c05Reason("xsig", id, t.c.Kind == "actor")
 		done := make(chan struct{})
 		t.parentCh <- func(pp *Probe) {
 			if err := pp.SendExit(t.target, reason); err == nil {
-				t.addCause(fmt.Sprintf("xsig%d", id))
+				t.addCause(key)
 				t.mu.Lock()
 				t.parentExit = true
 				t.mu.Unlock()
